@@ -373,7 +373,7 @@ pub fn run(report: &mut Report, tier: &str) {
             }
         }
     }
-    let bounds = Bounds::new(1).wall(Duration::from_secs(if q { 40 } else { 1500 }));
+    let bounds = Bounds::new(1).wall(Duration::from_secs(if q { 600 } else { 3000 }));
     let start = std::time::Instant::now();
     let (mut execs, mut points, mut outcomes, mut capped) = (0u64, 0u64, 0u64, 0u64);
     let mut sampled = 0;
